@@ -221,25 +221,7 @@ Definition oracle_ops (inp obs : list N) : bool :=
               end
           | o =>
               match spec_map nc nr o with
-              | None =>
-                  match o with
-                  | OCopyWithin _ _ _ _ dx dy =>
-                      if fits32 dx && fits32 dy then list_N_eqb obs (0%N :: e_Nlist old)
-                      else
-                        (* a destination corner beyond 32 bits: the call must panic; C14 does not
-                           say what a rejected call leaves inside the receiver (without overflow
-                           checks some rows are copied before the panic), C04 says that nothing
-                           outside it moves *)
-                        match obs with
-                        | ok :: rest =>
-                            match run_parser (p_list p_N) rest with
-                            | Some new => (ok =? 0)%N && outside_unchanged (oc_C c) q old new
-                            | None => false
-                            end
-                        | [] => false
-                        end
-                  | _ => list_N_eqb obs (0%N :: e_Nlist old)
-                  end
+              | None => list_N_eqb obs (0%N :: e_Nlist old)
               | Some f =>
                   let extra :=
                     match o with
